@@ -27,9 +27,11 @@ impl Guarded {
         unsafe {
             let total = (DATA_PAGES + 2) * PAGE;
             let base = mmap(std::ptr::null_mut(), total, 3, 0x22, -1, 0);
-            assert!(!base.is_null() && base as isize != -1, "mmap failed");
-            assert_eq!(0, mprotect(base, PAGE, 0));
-            assert_eq!(0, mprotect(base.add((DATA_PAGES + 1) * PAGE), PAGE, 0));
+            if base.is_null() || base as isize == -1 || mprotect(base, PAGE, 0) != 0 || mprotect(base.add((DATA_PAGES + 1) * PAGE), PAGE, 0) != 0 {
+                // the environment refuses the mapping: nothing can be decided here (never an alarm)
+                eprintln!("ENV cannot map guard pages");
+                std::process::exit(3);
+            }
             Guarded { base }
         }
     }
@@ -148,11 +150,23 @@ fn child(args: &Args) -> Report {
                     }
                 }
                 for h in &hays {
-                    let want = f(h);
+                    let want = match catch_unwind(AssertUnwindSafe(|| f(h))) {
+                        Ok(w) => w,
+                        Err(_) => {
+                            rep.fail(Fail { key: format!("guard:panic:{}:{}", li, name), what: format!("{} for {}: search of {} bytes '{}' panicked", name, show_pats(&pats[..pats.len().min(4)]), h.len(), show(&h[..h.len().min(90)])), argv: vec!["guard".into(), "--only-list".into(), li.to_string()] });
+                            continue;
+                        }
+                    };
                     for right in [true, false] {
                         rep.case(want.is_some());
                         let view = if right { g.flush_right(h) } else { g.flush_left(h) };
-                        let got = f(view);
+                        let got = match catch_unwind(AssertUnwindSafe(|| f(view))) {
+                            Ok(g) => g,
+                            Err(_) => {
+                                rep.fail(Fail { key: format!("guard:panic:{}:{}", li, name), what: format!("{} for {}: search of {} bytes '{}' placed flush {} an unreadable page panicked", name, show_pats(&pats[..pats.len().min(4)]), h.len(), show(&h[..h.len().min(90)]), if right { "before" } else { "after" }), argv: vec!["guard".into(), "--only-list".into(), li.to_string()] });
+                                continue;
+                            }
+                        };
                         if got != want {
                             rep.fail(Fail {
                                 key: format!("guard:reloc:{}:{}", li, name),
@@ -198,6 +212,11 @@ pub fn run(args: &Args) -> Report {
         let last_case = stderr.lines().filter(|l| l.starts_with("CASE ")).last().unwrap_or("CASE (none)").to_string();
         if !out.status.success() {
             use std::os::unix::process::ExitStatusExt;
+            // only a death by signal is a finding; anything else is a harness / environment problem
+            if out.status.signal().is_none() {
+                eprintln!("guard: sweep process (shard {}) ended with {:?}: {}", k, out.status.code(), stderr.lines().last().unwrap_or(""));
+                std::process::exit(2);
+            }
             let li = last_case.split('#').nth(1).and_then(|x| x.split(' ').next()).unwrap_or("0").to_string();
             let how = match out.status.signal() {
                 Some(11) => "SIGSEGV (a read outside the haystack hit the unreadable page)".to_string(),
